@@ -670,6 +670,8 @@ class Report:
                 label = desc if desc.startswith(("OBL:", "COVER:")) else key
                 if keep is not None and not keep(desc):
                     continue      # obligation belongs to another property's check (tagged [Cxx])
+                if desc.startswith("COVER:") and job.covers and desc not in job.covers:
+                    continue      # vacuity guard of another entry point of the same unit
                 if desc.startswith("COVER:") or desc in job.covers:
                     seen_cover.add(desc)
                     if status == "FAILURE":
